@@ -187,9 +187,133 @@ def _step(e, t):
     return None
 
 
+class _NotModelled(Exception):
+    pass
+
+
+class _RoundEval:
+    """Evaluates a rounding function as a decision procedure in one abstract world: an ordering between two named
+    quantities (`rel` = (a, b, '<'|'='|'>')) and, for round, the sign x parity class of low.count(). Locals are resolved
+    through their initialisers; `if`/`return`, conditional expressions, boolean locals, &&, ||, ! are interpreted."""
+
+    def __init__(self, f, rel, roles, parity=None):
+        self.f, self.rel, self.roles, self.parity = f, rel, roles, parity
+        self.env = {}
+
+    def bool(self, e):
+        e = astx.strip_casts(e)
+        if e is None:
+            raise _NotModelled("empty condition")
+        k = e.get("k")
+        if k == "paren":
+            return self.bool(e.get("e"))
+        if k == "bool":
+            return bool(e["v"])
+        if k == "ref" and e.get("d") == "local" and e["n"] in self.env:
+            return self.bool(self.env[e["n"]])
+        if k == "un" and e["op"] == "!":
+            return not self.bool(e["e"])
+        if k == "bin" and e["op"] == "&&":
+            return self.bool(e["l"]) and self.bool(e["r"])
+        if k == "bin" and e["op"] == "||":
+            return self.bool(e["l"]) or self.bool(e["r"])
+        if k == "cond":
+            return self.bool(e["t"]) if self.bool(e["c"]) else self.bool(e["f"])
+        if k == "bin" and e["op"] in ("<", ">", "<=", ">=", "==", "!="):
+            l, r = astx.strip_casts(e["l"]), astx.strip_casts(e["r"])
+            if l is not None and r is not None and l.get("k") == "ref" and r.get("k") == "ref":
+                a, b, o = self.rel
+                names = (l["n"], r["n"])
+                if names == (a, b):
+                    oo = o
+                elif names == (b, a):
+                    oo = {"<": ">", "=": "=", ">": "<"}[o]
+                else:
+                    raise _NotModelled("comparison of %s and %s" % names)
+                return oo in {"==": "=", "!=": "<>", "<": "<", ">": ">", "<=": "<=", ">=": ">="}[e["op"]]
+            a, b = self.num(e["l"]), self.num(e["r"])
+            return {"==": a == b, "!=": a != b, "<": a < b, ">": a > b, "<=": a <= b, ">=": a >= b}[e["op"]]
+        v = self.num(e)
+        return v != 0
+
+    def num(self, e):
+        """small integers arising in parity tests"""
+        e = astx.strip_casts(e)
+        if e is None:
+            raise _NotModelled("empty")
+        k = e.get("k")
+        if k == "paren":
+            return self.num(e.get("e"))
+        if k == "int":
+            return int(e["v"])
+        if k == "ref" and e.get("d") == "local" and e["n"] in self.env:
+            return self.num(self.env[e["n"]])
+        if k == "call" and astx.callee(e)[0] == "count" and self.parity is not None:
+            b = astx.strip_casts(astx.callee(e)[2])
+            if b is not None and b.get("k") == "ref" and self.roles.get(b["n"]) == "low":
+                return ("low",)
+            raise _NotModelled("count() of " + astx.show(b, 20))
+        if k == "bin" and e["op"] in ("&", "%"):
+            a, b = self.num(e["l"]), self.num(e["r"])
+            if a == ("low",) and isinstance(b, int):
+                sign, odd = self.parity
+                if e["op"] == "&" and b == 1:
+                    return 1 if odd else 0
+                if e["op"] == "%" and b == 2:
+                    return sign if odd else 0
+            raise _NotModelled("arithmetic " + astx.show(e, 30))
+        raise _NotModelled("expression " + astx.show(e, 30))
+
+    def value(self, e):
+        """classification of a returned duration: role name, 't+1' / 't-1', or None"""
+        e0 = astx.strip_casts(e)
+        if e0 is None:
+            return None
+        if e0.get("k") == "paren":
+            return self.value(e0.get("e"))
+        if e0.get("k") == "cond":
+            return self.value(e0["t"]) if self.bool(e0["c"]) else self.value(e0["f"])
+        if e0.get("k") == "ref":
+            if e0["n"] in self.roles:
+                return self.roles[e0["n"]]
+            if e0.get("d") == "local" and e0["n"] in self.env:
+                return self.value(self.env[e0["n"]])
+            return None
+        t = [n for n, r in self.roles.items() if r == "t"]
+        if t:
+            return _step(e, t[0])
+        return None
+
+    def run(self, s):
+        """returns the classified return value, or raises _NotModelled"""
+        k = s.get("k") if s else None
+        if s is None or k == "null":
+            return None
+        if k == "seq":
+            for c in s["s"]:
+                r = self.run(c)
+                if r is not None:
+                    return r
+            return None
+        if k == "decl":
+            for v in s["vars"]:
+                if "other" not in v and v.get("init") is not None:
+                    self.env[v["n"]] = v["init"]
+            return None
+        if k == "return":
+            return ("ret", self.value(s.get("e")))
+        if k == "if":
+            if s.get("init"):
+                self.run(s["init"])
+            br = s.get("then") if self.bool(s["c"]) else s.get("else")
+            return self.run(br) if br else None
+        if k == "expr":
+            return None
+        raise _NotModelled("statement " + str(k))
+
+
 def round_rule(chk, db):
     spec = {"floor": {"<": "t", "=": "t", ">": "t-1"}, "ceil": {"<": "t+1", "=": "t", ">": "t"}}
-    n = 0
     for name, table in spec.items():
         fs = [f for f in db.by_q.get("etl::chrono::" + name, []) if f.get("body") is not None and "duration<" in f["params"][0]["ty"]]
         if not fs:
@@ -201,35 +325,29 @@ def round_rule(chk, db):
                  if "other" not in v and v.get("init") is not None and any(astx.callee(c)[0] == "duration_cast" for c in SP.calls_in(v["init"]))]
         construct = astx.sig(f)
         chk.instance("ROUND")
-        n += 1
         if len(tvars) != 1:
             chk.obligation("ROUND", construct, None)
             chk.unknown_instance("ROUND", construct, "no single local holds duration_cast<To>(d)")
             continue
         t = tvars[0]
-        got = {}
-        modelled = True
+        bad = None
+        unknown = None
         for o in "<=>":
-            for p in SP.paths(f["body"]):
-                feas = True
-                for ev in p:
-                    if ev[0] == "cond":
-                        tr = _ord_truth(ev[1], t, d, o)
-                        if tr is None:
-                            modelled = False
-                        elif tr != ev[2]:
-                            feas = False
-                    if ev[0] == "ret" and feas:
-                        got.setdefault(o, set()).add(_step(ev[1], t))
-        bad = [(o, sorted(map(str, got.get(o, set())))) for o in "<=>" if got.get(o, set()) != {table[o]}]
-        ok = (not bad) if modelled else None
-        chk.obligation("ROUND", construct, ok)
-        if modelled and bad:
-            o, g = bad[0]
+            ev_ = _RoundEval(f, (t, d, o), {t: "t"})
+            try:
+                r = ev_.run(f["body"])
+            except _NotModelled as ex:
+                unknown = str(ex)
+                break
+            got = r[1] if r else None
+            if got != table[o] and bad is None:
+                bad = (o, got)
+        chk.obligation("ROUND", construct, None if unknown else (bad is None))
+        if unknown:
+            chk.unknown_instance("ROUND", construct, "not a modelled decision procedure: " + unknown)
+        elif bad:
             chk.violation("ROUND", construct, "rounding-table", "%s: when duration_cast<To>(d) %s d, %s returns %s; specified: %s" % (
-                astx.loc(f), {"<": "<", "=": "==", ">": ">"}[o], name, "/".join(g) or "nothing", table[o]), {"where": astx.loc(f)})
-        elif not modelled:
-            chk.unknown_instance("ROUND", construct, "a test is not a comparison of the cast result with the argument")
+                astx.loc(f), {"<": "<", "=": "==", ">": ">"}[bad[0]], name, bad[1], table[bad[0]]), {"where": astx.loc(f)})
     # round: nearest, ties to even
     fs = [f for f in db.by_q.get("etl::chrono::round", []) if f.get("body") is not None and "duration<" in f["params"][0]["ty"]]
     if not fs:
@@ -246,7 +364,6 @@ def round_rule(chk, db):
                     env[v["n"]] = v["init"]
     d = f["params"][0]["n"]
     low = [k for k, v in env.items() if any(astx.callee(c)[0] == "floor" for c in SP.calls_in(v))]
-    problems = []
     if len(low) != 1:
         chk.obligation("ROUND", construct, None)
         chk.unknown_instance("ROUND", construct, "no single local holds floor<To>(d)")
@@ -254,7 +371,6 @@ def round_rule(chk, db):
     low = low[0]
 
     def role(name):
-        """'low' | 'high' (low + 1) | 'lowDiff' (d - low) | 'highDiff' (high - d)"""
         if name == low:
             return "low"
         v = astx.strip_casts(env.get(name))
@@ -263,7 +379,7 @@ def round_rule(chk, db):
         l, r = astx.strip_casts(v["l"]), astx.strip_casts(v["r"])
         ln = l.get("n") if l is not None and l.get("k") == "ref" else None
         rn = r.get("n") if r is not None and r.get("k") == "ref" else None
-        if v["op"] == "+" and ln == low and _skel(v["r"], {}) is None and [x.get("v") for x in astx.walk_expr(v["r"]) if x.get("k") == "int"] == ["1"]:
+        if v["op"] == "+" and ln == low and [x.get("v") for x in astx.walk_expr(v["r"]) if x.get("k") == "int"] == ["1"]:
             return "high"
         if v["op"] == "-" and ln == d and rn is not None and role(rn) == "low":
             return "lowDiff"
@@ -271,90 +387,37 @@ def round_rule(chk, db):
             return "highDiff"
         return None
     roles = dict((k, role(k)) for k in env)
+    roles = dict((k, r) for k, r in roles.items() if r)
     ld = [k for k, r in roles.items() if r == "lowDiff"]
     hd = [k for k, r in roles.items() if r == "highDiff"]
     if len(ld) != 1 or len(hd) != 1:
         chk.obligation("ROUND", construct, None)
         chk.unknown_instance("ROUND", construct, "the distances to the two neighbours are not recognisable locals")
         return
-    want = {"<": "low", ">": "high"}
-    got = {}
-    parity = None
+    problems = []
+    unknown = None
     for o in "<=>":
-        for p in SP.paths(f["body"]):
-            feas = True
-            for ev in p:
-                if ev[0] == "cond":
-                    tr = _ord_truth(ev[1], ld[0], hd[0], o)
-                    if tr is None:
-                        feas = False
-                    elif tr != ev[2]:
-                        feas = False
-                if ev[0] == "ret" and feas:
-                    e = astx.strip_casts(ev[1])
-                    if e is not None and e.get("k") == "ref":
-                        got.setdefault(o, set()).add(roles.get(e["n"]))
-                    elif e is not None and e.get("k") == "cond":
-                        got.setdefault(o, set()).add("parity")
-                        parity = e
-                    else:
-                        got.setdefault(o, set()).add(None)
-    for o in "<>":
-        if got.get(o) != {want[o]}:
-            problems.append("when the distance to the lower neighbour is %s the distance to the upper one, round returns %s (specified: %s)" % (
-                "less than" if o == "<" else "greater than", "/".join(sorted(map(str, got.get(o, set())))) or "nothing", want[o]))
-    if got.get("=") != {"parity"} or parity is None:
-        problems.append("a tie is not resolved by the parity of the lower neighbour")
-    else:
-        # abstract evaluation of the parity test over sign x parity of low.count()
-        def aval(x, cls):
-            x = astx.strip_casts(x)
-            if x is None:
-                return None
-            if x.get("k") == "paren":
-                return aval(x.get("e"), cls)
-            if x.get("k") == "int":
-                return int(x["v"])
-            if x.get("k") == "call" and astx.callee(x)[0] == "count":
-                b = astx.strip_casts(astx.callee(x)[2])
-                if b is not None and b.get("k") == "ref" and roles.get(b["n"]) == "low":
-                    return cls
-                return None
-            if x.get("k") == "bin":
-                a, b = aval(x["l"], cls), aval(x["r"], cls)
-                if a is None or b is None:
-                    return None
-                sign, odd = (a if isinstance(a, tuple) else (None, None))
-                if isinstance(a, tuple) and isinstance(b, int):
-                    if x["op"] == "&" and b == 1:
-                        return 1 if odd else 0
-                    if x["op"] == "%" and b == 2:
-                        return (sign if odd else 0)
-                    return None
-                if isinstance(a, int) and isinstance(b, int):
-                    return {"==": int(a == b), "!=": int(a != b), "<": int(a < b), ">": int(a > b), "<=": int(a <= b), ">=": int(a >= b)}.get(x["op"])
-            if x.get("k") == "un" and x["op"] == "!":
-                a = aval(x["e"], cls)
-                return None if a is None or isinstance(a, tuple) else int(not a)
-            return None
         for sign in (1, -1):
             for odd in (True, False):
-                v = aval(parity["c"], (sign, odd))
-                if v is None or isinstance(v, tuple):
-                    problems.append("the parity test `%s` is not a modelled form" % astx.show(parity["c"], 40))
-                    break
-                tn = astx.strip_casts(parity["t"]) if v else astx.strip_casts(parity["f"])
-                chosen = roles.get(tn.get("n")) if tn is not None and tn.get("k") == "ref" else None
-                need = "high" if odd else "low"
-                if chosen != need:
-                    problems.append("on a tie with a %s %s lower neighbour round returns %s (ties go to the even neighbour: %s)" % (
-                        "negative" if sign < 0 else "positive", "odd" if odd else "even", chosen, need))
-            else:
-                continue
-            break
-    chk.obligation("ROUND", construct, not problems)
+                ev_ = _RoundEval(f, (ld[0], hd[0], o), roles, parity=(sign, odd))
+                try:
+                    r = ev_.run(f["body"])
+                except _NotModelled as ex:
+                    unknown = str(ex)
+                    continue
+                got = r[1] if r else None
+                want = "low" if o == "<" else ("high" if o == ">" else ("high" if odd else "low"))
+                if got != want:
+                    where = {"<": "the lower neighbour is nearer", ">": "the upper neighbour is nearer",
+                             "=": "on a tie with a %s %s lower neighbour" % ("negative" if sign < 0 else "positive", "odd" if odd else "even")}[o]
+                    msg = "%s round returns %s (specified: %s)" % (where, got, want)
+                    if msg not in problems:
+                        problems.append(msg)
+    chk.obligation("ROUND", construct, False if problems else (None if unknown else True))
     for m in problems[:2]:
         chk.violation("ROUND", construct, "rounding-table", "%s: %s" % (astx.loc(f), m), {"where": astx.loc(f)})
+    if unknown and not problems:
+        chk.unknown_instance("ROUND", construct, "not a modelled decision procedure: " + unknown)
 
 
 def conv_rule(chk, db):
